@@ -49,6 +49,12 @@ def case(job):
     # in a quarter of the git projects a version tag is AHEAD of the configured version: the old version of the placeholders is the tag's
     tag_ahead = tool == "git" and seed % 4 == 3
     old, new, oldpep, newpep = ("v1.2.7-beta", "v1.2.8-beta", "1.2.7b0", "1.2.8b0") if tag_ahead else (OLD, NEW, "1.2.3b0", "1.2.4b0")
+    # one run in six gives the new version with --set-version in a valid but non-canonical spelling (a tag spelled out at its default, a leading zero):
+    # the announced version - and so the tag name and the placeholders - is the text as given
+    setver = None
+    if seed % 6 == 5:
+        setver, newpep = [("v1.3.0-final", "1.3.0"), ("v1.03.0-beta", "1.3.0b0"), ("v1.3.00-rc", "1.3.0rc0")][(seed // 6) % 3]
+        new = setver
     with drive.scratch_dir("c12") as d:
         proj = project.Project(os.path.join(d, "p"), vcs=tool, gitfile=(seed % 5 == 2))
         fv = fakevcs.FakeVCS(os.path.join(d, "fake"), tool)
@@ -73,7 +79,7 @@ def case(job):
             proj.write("bumpver.toml", project.bumpver_toml(OLD, VP, [(n, ["{version}"]) for n in names], commit=True, tag=True, push=True, extra=extra))
         for n in names:
             proj.write(n, "version %s\n" % OLD)
-        args = ["update", "--patch", "--no-fetch"]
+        args = ["update", "--no-fetch"] + (["--set-version", setver] if setver else ["--patch"])
         if cli_c:
             args += ["--commit-message", tc]
         if cli_t and not light:
